@@ -9,6 +9,11 @@ pipe table, `1.` against `-`), so this file re-proves the refinement and the mon
 finer specification `blocks` (Lemmas/HtmlBlocks.lean: same traversal, tables whole, item kinds
 kept) and chains them into statements about `MarkdownWithOptions`, `Markdown()` and
 `tabula.Extractor.ToMarkdown`.
+
+Depth limit (fix a65974f, see Props/C19Api.lean): the statements about the Markdown view of a reader
+that exists are kept verbatim as `view_…`; the statements about the public calls including
+`OpenReader` (`openMarkdown`, `extractorMarkdownE`) carry the hypothesis `depth doc ≤ maxTreeDepth`;
+the EPUB statements range over the admitted chapters.
 -/
 namespace Tabula.C19Md
 open Tabula.Html Tabula.C19 Tabula.C19Api
@@ -32,7 +37,7 @@ example : ∀ pos n, excluded .standard pos n = true → excluded .aggressive po
 
 /-- up to white space the Markdown view is the blocks one after the other, each in its Markdown
 form (`#`s, list marker, pipe table, code fence, `>` lines) -/
-theorem markdown_is_blocks (m : Int) (doc : Dom) :
+theorem view_markdown_is_blocks (m : Int) (doc : Dom) :
     squeeze (markdownWithOptions m doc) =
       (blocksOf (excluded (clampMode m)) (bodyOf doc)).flatMap fun b => squeeze (b.md id) := by
   unfold markdownWithOptions
@@ -44,26 +49,52 @@ theorem markdown_is_blocks (m : Int) (doc : Dom) :
 /-- MONOTONE, END TO END, Markdown: for raw mode values `a`, `b` with `b` at least as strict as `a`,
 what `MarkdownWithOptions` returns for `b` is (white space aside) a subsequence of what it returns
 for `a` — whole headings, items, tables, code blocks and quotes are dropped, nothing is added. -/
-theorem markdown_monotone (a b : Int) (h : (clampMode a).rank ≤ (clampMode b).rank) (doc : Dom) :
+theorem view_markdown_monotone (a b : Int) (h : (clampMode a).rank ≤ (clampMode b).rank) (doc : Dom) :
     (squeeze (markdownWithOptions b doc)).Sublist (squeeze (markdownWithOptions a doc)) := by
-  rw [markdown_is_blocks, markdown_is_blocks]
+  rw [view_markdown_is_blocks, view_markdown_is_blocks]
   apply sublist_flatMap
   unfold blocksOf
   exact blocks_mono _ _ (fun pos n => excluded_mono_rank _ _ h pos n) _ _ _ _
 
-theorem markdown_mode_chain (doc : Dom) :
+theorem view_markdown_mode_chain (doc : Dom) :
     (squeeze (markdownWithOptions 3 doc)).Sublist (squeeze (markdownWithOptions 2 doc)) ∧
     (squeeze (markdownWithOptions 2 doc)).Sublist (squeeze (markdownWithOptions 1 doc)) ∧
     (squeeze (markdownWithOptions 1 doc)).Sublist (squeeze (markdownWithOptions 0 doc)) ∧
     (∀ m : Int, (squeeze (markdownWithOptions m doc)).Sublist (squeeze (markdownWithOptions 0 doc))) :=
-  ⟨markdown_monotone 2 3 (by decide) doc, markdown_monotone 1 2 (by decide) doc,
-   markdown_monotone 0 1 (by decide) doc,
-   fun m => markdown_monotone 0 m (by simp [clampMode, Mode.rank]) doc⟩
+  ⟨view_markdown_monotone 2 3 (by decide) doc, view_markdown_monotone 1 2 (by decide) doc,
+   view_markdown_monotone 0 1 (by decide) doc,
+   fun m => view_markdown_monotone 0 m (by simp [clampMode, Mode.rank]) doc⟩
+
+/-- RESTATED with the depth hypothesis (was: for every tree): up to white space `OpenReader` +
+`MarkdownWithOptions` returns the blocks one after the other, each in its Markdown form. -/
+theorem markdown_is_blocks (m : Int) (doc : Dom) (hd : depth doc ≤ maxTreeDepth) :
+    (openMarkdown m doc).map squeeze =
+      some ((blocksOf (excluded (clampMode m)) (bodyOf doc)).flatMap fun b => squeeze (b.md id)) := by
+  rw [((open_within doc hd).2.2.1 m).2.1, Option.map_some, view_markdown_is_blocks]
+
+/-- MONOTONE, END TO END, Markdown, RESTATED with the depth hypothesis (beyond the limit both calls
+return the error of `OpenReader`, `open_refuses_beyond`). -/
+theorem markdown_monotone (a b : Int) (h : (clampMode a).rank ≤ (clampMode b).rank) (doc : Dom)
+    (hd : depth doc ≤ maxTreeDepth) :
+    ∃ ma mb, openMarkdown a doc = some ma ∧ openMarkdown b doc = some mb ∧ (squeeze mb).Sublist (squeeze ma) :=
+  ⟨_, _, ((open_within doc hd).2.2.1 a).2.1, ((open_within doc hd).2.2.1 b).2.1, view_markdown_monotone a b h doc⟩
+
+theorem markdown_mode_chain (doc : Dom) (hd : depth doc ≤ maxTreeDepth) :
+    ∃ m0 m1 m2 m3, openMarkdown 0 doc = some m0 ∧ openMarkdown 1 doc = some m1 ∧ openMarkdown 2 doc = some m2 ∧
+      openMarkdown 3 doc = some m3 ∧
+      (squeeze m3).Sublist (squeeze m2) ∧ (squeeze m2).Sublist (squeeze m1) ∧ (squeeze m1).Sublist (squeeze m0) ∧
+      ∀ m : Int, ∃ t, openMarkdown m doc = some t ∧ (squeeze t).Sublist (squeeze m0) := by
+  have w := open_within doc hd
+  have c := view_markdown_mode_chain doc
+  exact ⟨_, _, _, _, (w.2.2.1 0).2.1, (w.2.2.1 1).2.1, (w.2.2.1 2).2.1, (w.2.2.1 3).2.1, c.1, c.2.1, c.2.2.1,
+    fun m => ⟨_, (w.2.2.1 m).2.1, c.2.2.2 m⟩⟩
+
+example : depth (nestedDoc 5 [120]) ≤ maxTreeDepth := by rw [depth_nestedDoc]; decide
 
 /-- `tabula.FromHTMLString(…).ToMarkdown()` IS `MarkdownWithOptions` with mode None, exactly (not
 only up to white space): the heading-level adjustment of the default RAG options is the identity
 on the levels 1..6, and no heading element of a parsed document has another level. -/
-theorem extractor_markdown_is_mode_none (doc : Dom) :
+theorem view_extractor_markdown_is_mode_none (doc : Dom) :
     extractorMarkdown doc = markdownWithOptions 0 doc := by
   unfold extractorMarkdown markdownWithOptions
   apply renderMd_congr
@@ -73,6 +104,13 @@ theorem extractor_markdown_is_mode_none (doc : Dom) :
   have h1 : ¬ l < 1 := by omega
   have h2 : ¬ l > 6 := by omega
   simp [h1, h2]
+
+/-- the same for the calls from the bytes: `ToMarkdown()` and `OpenReader` + `MarkdownWithOptions{None}`
+agree for EVERY tree — the same text within the depth limit, the same error beyond it -/
+theorem extractor_markdown_is_mode_none (doc : Dom) :
+    extractorMarkdownE doc = openMarkdown 0 doc := by
+  unfold extractorMarkdownE openMarkdown
+  rw [view_extractor_markdown_is_mode_none]
 
 /-- the Document view at block level: monotone with tables whole (a table of the stricter mode is a
 table of the weaker mode, with all its rows, spans and header flags) -/
@@ -91,19 +129,22 @@ theorem blocks_refine_atoms (p : Pos → Dom → Bool) (w : Bool) (pos : Pos) (l
     (blocks p w pos lc t).flatMap Block.atoms = atoms p w pos lc.toLC t :=
   blocks_atoms p w t pos lc
 
-/-- EPUB Markdown: up to white space, the non-empty chapter views joined by `---` … -/
+/-- EPUB Markdown, RESTATED over the admitted chapters (was: all chapters; a chapter nested deeper
+than `maxTreeDepth` is left out together with its separator): up to white space, the non-empty
+views of the admitted chapters joined by `---` … -/
 theorem epub_markdown_is_chapters (m : Int) (chapters : List Dom) :
     squeeze (epubMarkdown m chapters) =
-      joinWith [45, 45, 45] ((chapters.map fun d => squeeze (markdownWithOptions m d)).filter (· != [])) := by
+      joinWith [45, 45, 45]
+        (((chapters.filter admitted).map fun d => squeeze (markdownWithOptions m d)).filter (· != [])) := by
   unfold epubMarkdown
   rw [squeeze_joinWith_map, epubParts_map_squeeze]
   rfl
 
-/-- … and monotone in the raw mode value like every other view: a chapter that becomes empty under the
-stricter mode vanishes together with its separator -/
+/-- … and monotone in the raw mode value like every other view (verbatim): a chapter that becomes
+empty under the stricter mode vanishes together with its separator -/
 theorem epub_markdown_monotone (a b : Int) (h : (clampMode a).rank ≤ (clampMode b).rank) (chapters : List Dom) :
     (squeeze (epubMarkdown b chapters)).Sublist (squeeze (epubMarkdown a chapters)) := by
   rw [epub_markdown_is_chapters, epub_markdown_is_chapters]
-  exact (joinWith_filter_sublist _ _ _ (fun d => markdown_monotone a b h d) chapters).1
+  exact (joinWith_filter_sublist _ _ _ (fun d => view_markdown_monotone a b h d) _).1
 
 end Tabula.C19Md
